@@ -139,6 +139,7 @@ type wcase struct {
 	stdin     []byte
 	stdinMode int  // 0 none (/dev/null), 1 pipe, 2 regular file
 	fdrel     bool // tree must be created with directory-relative system calls (paths beyond PATH_MAX)
+	waitsOn   bool // an argument names a FIFO: the run is expected to wait for a writer; short timeout
 }
 
 type c10env struct {
@@ -267,11 +268,18 @@ type runObs struct {
 func (o runObs) sx() Sx { return SL{SB(o.stdout), I(o.exit), Bool(o.blocked), Bool(o.crashed)} }
 
 func (e *c10env) runBin(cwd string, argv []string, stdin []byte, stdinMode int) runObs {
+	return e.runBinT(cwd, argv, stdin, stdinMode, 0)
+}
+
+func (e *c10env) runBinT(cwd string, argv []string, stdin []byte, stdinMode int, short time.Duration) runObs {
 	// generous: an ordinary run takes milliseconds; only a run that really blocks gets here,
 	// even on a heavily loaded machine
 	to := 30 * time.Second
 	if atomic.LoadInt32(&e.blocked) >= 2 {
 		to = 10 * time.Second // a blocking defect is established; do not spend 30 s on every further case
+	}
+	if short > 0 {
+		to = short // the case names a FIFO as an argument: blocking is the expected outcome
 	}
 	ctx, cancel := context.WithTimeout(context.Background(), to)
 	defer cancel()
@@ -300,7 +308,9 @@ func (e *c10env) runBin(cwd string, argv []string, stdin []byte, stdinMode int) 
 	err := cmd.Run()
 	o := runObs{stdout: so.Bytes()}
 	if ctx.Err() == context.DeadlineExceeded {
-		atomic.AddInt32(&e.blocked, 1)
+		if short == 0 {
+			atomic.AddInt32(&e.blocked, 1)
+		}
 		o.blocked = true
 		o.exit = -1
 		return o
@@ -432,7 +442,11 @@ func (e *c10env) runCase(idx int, wc *wcase) (Sx, Sx, error) {
 			return nil, nil, fmt.Errorf("materialise: %v", err)
 		}
 	}
-	obs := e.runBin(cwd, wc.argv, wc.stdin, wc.stdinMode)
+	var short time.Duration
+	if wc.waitsOn {
+		short = 8 * time.Second
+	}
+	obs := e.runBinT(cwd, wc.argv, wc.stdin, wc.stdinMode, short)
 	oracle := SL{}
 	seen := map[string]bool{}
 	for _, a := range wc.argv {
@@ -653,7 +667,8 @@ func genC10(c *Ctx) {
 	for _, k := range kinds {
 		for pi, pname := range []string{"0first", "mid", "~last"} {
 			listing := []*fnode{reg("y", der), k.mk(pname), reg("b", hello), reg("M", uuid)}
-			tag := fmt.Sprintf("walk:pos-%s-%d", k.tag, pi)
+			_ = pi
+			tag := fmt.Sprintf("walk:pos-%s", k.tag)
 			add(tag, []*fnode{dir("d", listing...)}, "-r", "d")
 			add(tag+"-nested", []*fnode{dir("d", reg("z", der), dir("s", listing...), reg("A", hello))}, "-r", "d")
 		}
@@ -682,9 +697,14 @@ func genC10(c *Ctx) {
 		{"sock"}, {"-r", "sock", "f1"}, {"-r", "empty"}, {"empty"}, {"-r", "d1", "d1"}, {"-r", "empty", "d2", "empty"},
 		{"-r", "d1/nonexistent"}, {"f1/x"}, {"-r", "d2", "f1", "d1", "lf", "ld"},
 	}
-	for i, a := range argLists {
-		add(fmt.Sprintf("walk:args-%d", i), std(), a...)
+	for _, a := range argLists {
+		add("walk:args", std(), a...)
 	}
+
+	// a FIFO named explicitly: the run waits for a writer (like cat); everything before it is reported
+	fifoStd := func() []*fnode { return append(std(), other(kFifo, "fifo")) }
+	add("walk:fifo-arg", fifoStd(), "f1", "fifo", "f2").waitsOn = true
+	add("walk:fifo-arg", fifoStd(), "-r", "d1", "fifo", "d2").waitsOn = true
 
 	// ---- standard input ----
 	for i, ct := range g.contents {
@@ -719,7 +739,8 @@ func genC10(c *Ctx) {
 			}
 			argv = append(argv, "--")
 			for _, n := range listing {
-				if g.r.Intn(2) == 0 {
+				// (not FIFOs: one named as an argument makes the run wait, see walk:fifo-arg)
+				if g.r.Intn(2) == 0 && n.kind != kFifo {
 					argv = append(argv, n.name)
 				}
 			}
